@@ -1,6 +1,7 @@
 """The four oracles (DESIGN section 5).  Each sees every step (including steps nested inside
 callbacks) through before()/after() and reports through world.violation()."""
 from fractions import Fraction
+import json
 import re
 
 import numpy as np
@@ -718,7 +719,12 @@ class C04(Oracle):
             # inexactness are certain; such DIRECT writes are judged when they arrive as integers
             # (Python ints, integer arrays, raw codes), never under wrap.
             sat = cfg['overflow'] == 'saturate'
-            big_ok = sat and sto.arith is None and (sto.raw or self.integer_carrier(st) or sto.src is not None)
+            big_ok = sat and sto.arith is None and (sto.raw or self.integer_carrier(st) or sto.src is not None or
+                                                    (st.extra.get('val') is not None and
+                                                     V.is_string_spec(st.extra['val']) and
+                                                     not any(k_ in json.dumps(st.extra['val']) for k_ in ('"b"', '"h"'))))
+            # (decimal literals too: however the library parses them, a magnitude of 2^53 LSB and more
+            #  overflows every word of the domain)
             # (conversions from another object - resize, equal, x(y), Fxp(y, ...), x[i] = y - re-scale
             #  integer codes: their overflow is as certain as that of a Python integer)
             # (arithmetic is NOT included: operands are scaled in int64 and can wrap there silently -
